@@ -133,6 +133,23 @@ CLAIMS = {
          "findings, negations proved): same-scale units hash by symbol (D13u); converter-based equality of reference-less types cannot be "
          "hash-consistent (D13c). Python's hash of equal numbers/tuples is trusted.",
          "6 C19", NOTE),
+ "C15": ("Lean 4 proof (registry model: effect of unit creation, symbol uniqueness invariant, rejection table) + differential correspondence on declaration histories",
+         "Theorems (Props/C15.lean) over the registry model: what a successful unit creation does to each directory (next id, found under its "
+         "symbol, appended to its own class's list and no other, scale = numeric part of the normalised definition), symbols stay unique and point "
+         "back to their unit (invariant preserved by every creation), factory dispatch to the unit's class, and the rejection table "
+         "(duplicate/empty/non-string symbol, foreign quantity, term not resolving to the own class, duplicate dimension). The model is tied to the "
+         "code by random declaration histories (40 quick / 400 thorough, 15 kinds of invalid steps) compared after EVERY step through a full "
+         "directory dump, plus an independent oracle that tracks class, dimension and scale (product of the factors along the chain) with Fractions "
+         "only. Partial: that the stored scale equals the product of factors is established by the oracle on every history and by C07's denotation "
+         "theorems for the normalisation step, not yet as one closed theorem over histories.",
+         "6 C15", NOTE),
+ "C16": ("Lean 4 proof (every failing path of the declaration model returns the unchanged state) + differential correspondence with directory dumps before/after every rejected step",
+         "Theorems (Props/C16.lean, C08, C11): for new_unit, derive_unit_from, class statements, currency declarations, money-converter updates "
+         "and failing unit arithmetic (operation cache), a rejected attempt returns exactly the state it started from, for ALL states and "
+         "arguments; hence all later queries answer as if the attempt had never been made. The model mirrors the code's order of validation and "
+         "registration (after the fix: commits for duplicate-dimension classes and for MoneyConverter.update); the mirror is validated by comparing "
+         "the full directory dump / converter table of the real objects before and after every rejected step of random histories.",
+         "6 C16", NOTE),
 }
 
 def main():
